@@ -842,3 +842,180 @@ func TestC11Order(t *testing.T) {
 	}
 	run.Exhaustive()
 }
+
+// manyCase: a call with many arguments.
+type manyCase struct {
+	K     int `json:"k"`     // number of values
+	Shape int `json:"shape"` // 0 plain list, 1 spread, 2 two plain + spread, 3 array to slice parameter, 4 strings, 5 builtins
+	Mul   int `json:"mul"`
+}
+
+func checkMany(c manyCase) string {
+	vals := make([]int, c.K)
+	lits := make([]string, c.K)
+	for i := range vals {
+		vals[i] = (i*c.Mul)%2001 - 1000
+		lits[i] = strconv.Itoa(vals[i])
+		if vals[i] < 0 {
+			lits[i] = "(" + lits[i] + ")"
+		}
+	}
+	list := strings.Join(lits, ", ")
+	var gotAny [][]interface{}
+	var gotInt [][]int
+	var gotStr [][]string
+	var gotHead []string
+	data := map[string]interface{}{
+		"va": func(xs ...interface{}) (int, error) {
+			gotAny = append(gotAny, append([]interface{}(nil), xs...))
+			return len(xs), nil
+		},
+		"vi": func(xs ...int) (int, error) { gotInt = append(gotInt, append([]int(nil), xs...)); return len(xs), nil },
+		"va2": func(a, b interface{}, xs ...interface{}) (int, error) {
+			gotAny = append(gotAny, append([]interface{}{a, b}, xs...))
+			return len(xs) + 2, nil
+		},
+		"vi2": func(a, b int, xs ...int) (int, error) {
+			gotInt = append(gotInt, append([]int{a, b}, xs...))
+			return len(xs) + 2, nil
+		},
+		"sl": func(xs []int) (int, error) { gotInt = append(gotInt, append([]int(nil), xs...)); return len(xs), nil },
+		"vs": func(h string, xs ...string) (int, error) {
+			gotHead = append(gotHead, h)
+			gotStr = append(gotStr, append([]string(nil), xs...))
+			return len(xs), nil
+		},
+	}
+	var f string
+	wantLen := c.K
+	switch c.Shape {
+	case 0:
+		f = "[va(" + list + "), vi(" + list + ")]"
+	case 1:
+		f = "[va([" + list + "]...), vi([" + list + "]...)]"
+	case 2:
+		f = "[va2(" + lits[0] + ", " + lits[1] + ", [" + strings.Join(lits[2:], ", ") + "]...), vi2(" + lits[0] + ", " + lits[1] + ", [" + strings.Join(lits[2:], ", ") + "]...)]"
+	case 3:
+		f = "[sl([" + list + "])]"
+	case 4:
+		f = "[vs('h', " + list + "), vs('h', [" + list + "]...)]"
+	default:
+		f = "[max(" + list + "), min([" + list + "]...), len(join([" + list + "], ','))]"
+	}
+	p := obs.Parse([]byte(f))
+	if !p.OK() {
+		return fmt.Sprintf("HARNESS: %q does not parse: %v", f, p.Err)
+	}
+	r := formula.NewRunner()
+	r.SetThis(data)
+	out := obs.Eval(r, context.Background(), p.Src.Expression)
+	short := f
+	if len(short) > 160 {
+		short = short[:80] + " ... " + short[len(short)-60:]
+	}
+	if out.Panic != nil || out.Err != nil {
+		return fmt.Sprintf("%s with %d values: %s, want every call made once with all its arguments", short, c.K, out)
+	}
+	arr, ok := out.Val.([]interface{})
+	if !ok {
+		return fmt.Sprintf("%s = %s, want a list", short, out)
+	}
+	if c.Shape == 5 {
+		mx, mn, jl := vals[0], vals[0], c.K-1
+		for _, v := range vals {
+			if v > mx {
+				mx = v
+			}
+			if v < mn {
+				mn = v
+			}
+			jl += len(strconv.Itoa(v))
+		}
+		for i, w := range []int{mx, mn, jl} {
+			if g, ok := obs.Int(arr[i]); !ok || g != int64(w) {
+				return fmt.Sprintf("%s with %d values: element %d = %s, want %d", short, c.K, i, obs.Show(arr[i]), w)
+			}
+		}
+		return ""
+	}
+	for i, e := range arr {
+		if g, ok := obs.Int(e); !ok || g != int64(wantLen) {
+			return fmt.Sprintf("%s: call %d received %s arguments in its variadic tail / slice, want %d", short, i, obs.Show(e), wantLen)
+		}
+	}
+	if len(gotAny)+len(gotInt)+len(gotStr) != len(arr) {
+		return fmt.Sprintf("%s: %d invocations recorded, want %d (one per call)", short, len(gotAny)+len(gotInt)+len(gotStr), len(arr))
+	}
+	for _, xs := range gotAny {
+		for i, x := range xs {
+			if g, ok := obs.Int(x); !ok || g != int64(vals[i]) {
+				return fmt.Sprintf("%s: argument %d of %d arrived as %s, want %d", short, i, c.K, obs.Show(x), vals[i])
+			}
+		}
+	}
+	for _, xs := range gotInt {
+		for i, x := range xs {
+			if x != vals[i] {
+				return fmt.Sprintf("%s: int argument %d of %d arrived as %d, want %d", short, i, c.K, x, vals[i])
+			}
+		}
+	}
+	for k, xs := range gotStr {
+		if gotHead[k] != "h" {
+			return fmt.Sprintf("%s: leading argument arrived as %q, want \"h\"", short, gotHead[k])
+		}
+		for i, x := range xs {
+			if x != strconv.Itoa(vals[i]) {
+				return fmt.Sprintf("%s: string argument %d of %d arrived as %q, want %q", short, i, c.K, x, strconv.Itoa(vals[i]))
+			}
+		}
+	}
+	return ""
+}
+
+func init() {
+	h.RegisterReplay("c11-many", func(raw json.RawMessage) string {
+		c, err := h.Decode[manyCase](raw)
+		if err != nil {
+			return "bad replay: " + err.Error()
+		}
+		return checkMany(c)
+	})
+}
+
+// TestC11Many: the contract does not bound the number of arguments or elements.
+func TestC11Many(t *testing.T) {
+	run := h.Begin("C11", "many", "enumerated: calls with k = 3..40, 63..66, 127..130, 255..258, 500, 1000 (thorough: every k up to 300, 1000, 5000) integer arguments - written out, spread from a list, two written out plus a spread, a list for a slice parameter, numbers for a string tail, and the builtins max / min / join - to recording functions with ...interface{}, ...int, (a, b, ...rest), []int and (string, ...string) signatures; oracle: one invocation per call, every argument present, in order, converted; non-trivial: k >= 17; distinct by (k, shape)")
+	defer run.End(t)
+	ks := []int{500, 1000}
+	for k := 3; k <= 40; k++ {
+		ks = append(ks, k)
+	}
+	for _, b := range []int{64, 128, 256} {
+		ks = append(ks, b-1, b, b+1, b+2)
+	}
+	if h.Tier() == "thorough" {
+		ks = []int{1000, 5000}
+		for k := 3; k <= 300; k++ {
+			ks = append(ks, k)
+		}
+	}
+	si, sn := h.Shard()
+	n := 0
+	for _, k := range ks {
+		for shape := 0; shape <= 5; shape++ {
+			if n++; n%sn != si {
+				continue
+			}
+			c := manyCase{K: k, Shape: shape, Mul: 7 + 2*(k%5)}
+			run.Count(k >= 17, fmt.Sprintf("shape%d", shape))
+			if k == 20 {
+				run.Sample("many", fmt.Sprintf("k=%d shape=%d", k, shape))
+			}
+			if msg := checkMany(c); msg != "" {
+				run.Fail("c11-many", c, msg)
+			}
+		}
+	}
+	run.Exhaustive()
+}
